@@ -1,4 +1,5 @@
 import Rspirv.Model.Assemble
+import Rspirv.Model.Module
 import Rspirv.Generated.Traversals
 /-!
 # C15 — `Instruction::assemble_into` appends the instruction's own assembly, wherever it is placed
@@ -57,6 +58,94 @@ theorem C15_inst_into (buf : List Nat) (i : Inst) :
 /-- the stand-alone entry point `assemble()` is the same on the empty buffer -/
 theorem C15_inst_alone (i : Inst) : instInto Rspirv.Generated.Traversals.asmInstruction [] i = assembleInst i := by
   rw [C15_inst_into]; rfl
+
+/-! ### the containers: `Block`, `Function`, `Module` thread ONE output buffer through their parts
+
+`assemble_into(&self, result: &mut Vec<u32>)` of a block, function or module hands the same vector to each part in turn
+(`for x in .. { x.assemble_into(result) }`). `*.asmInto` below is that buffer-threading reading of the translated statement
+orders; the theorems say it equals the buffer followed by the `flatMap` reading (`Module.asm`) that `C15_assemble` is
+stated for — provided each instruction appends its own assembly, which `C15_inst_into` proves for the translated body. -/
+
+section containers
+variable {ι : Type}
+
+theorem foldl_into (f : List Nat → ι → List Nat) (g : ι → List Nat) (h : ∀ buf x, f buf x = buf ++ g x)
+    (xs : List ι) (buf : List Nat) : xs.foldl f buf = buf ++ xs.flatMap g := by
+  induction xs generalizing buf with
+  | nil => simp
+  | cons x xs ih => simp [List.foldl_cons, ih, h, List.append_assoc]
+
+def blockInto (ab : List Nat) (into : List Nat → ι → List Nat) (buf : List Nat) (b : Block ι) : List Nat :=
+  ab.foldl (fun r p => (b.piece p).foldl into r) buf
+
+def functionIntoPiece (ab : List Nat) (into : List Nat → ι → List Nat) (f : Function ι) (r : List Nat) : Nat → List Nat
+  | 0 => f.def_.toList.foldl into r
+  | 1 => f.params.foldl into r
+  | 2 => f.blocks.foldl (blockInto ab into) r
+  | 3 => f.end_.toList.foldl into r
+  | _ => r
+
+def functionInto (af ab : List Nat) (into : List Nat → ι → List Nat) (buf : List Nat) (f : Function ι) : List Nat :=
+  af.foldl (functionIntoPiece ab into f) buf
+
+/-- `result.extend([..fields..])` -/
+def headerInto (ah : List Nat) (buf : List Nat) (h : Header) : List Nat := buf ++ ah.flatMap h.field
+
+def moduleIntoPiece (ah go af ab : List Nat) (into : List Nat → ι → List Nat) (m : Module ι) (r : List Nat) : Nat → List Nat
+  | 0 => match m.header with
+    | some h => headerInto ah r h
+    | none => r
+  | 1 => (m.globalChain go).foldl into r
+  | 2 => m.functions.foldl (functionInto af ab into) r
+  | _ => r
+
+/-- `Module::assemble_into(&self, result)` -/
+def moduleInto (am ah go af ab : List Nat) (into : List Nat → ι → List Nat) (buf : List Nat) (m : Module ι) : List Nat :=
+  am.foldl (moduleIntoPiece ah go af ab into m) buf
+
+variable (into : List Nat → ι → List Nat) (asm : ι → List Nat) (h : ∀ buf x, into buf x = buf ++ asm x)
+include h
+
+theorem blockInto_eq (ab : List Nat) (buf : List Nat) (b : Block ι) : blockInto ab into buf b = buf ++ Block.asm ab asm b := by
+  unfold blockInto Block.asm
+  exact foldl_into _ _ (fun r p => foldl_into into asm h (b.piece p) r) ab buf
+
+theorem functionInto_eq (af ab : List Nat) (buf : List Nat) (f : Function ι) :
+    functionInto af ab into buf f = buf ++ Function.asm af ab asm f := by
+  unfold functionInto Function.asm
+  refine foldl_into _ _ (fun r p => ?_) af buf
+  match p with
+  | 0 => exact foldl_into into asm h _ r
+  | 1 => exact foldl_into into asm h _ r
+  | 2 => exact foldl_into _ _ (blockInto_eq into asm h ab) _ r
+  | 3 => exact foldl_into into asm h _ r
+  | _ + 4 => simp [functionIntoPiece, Function.asmPiece]
+
+theorem moduleInto_eq (am ah go af ab : List Nat) (buf : List Nat) (m : Module ι) :
+    moduleInto am ah go af ab into buf m = buf ++ Module.asm am ah go af ab asm m := by
+  unfold moduleInto Module.asm
+  refine foldl_into _ _ (fun r p => ?_) am buf
+  match p with
+  | 0 =>
+    simp only [moduleIntoPiece, Module.asmPiece]
+    cases m.header with
+    | none => simp
+    | some hd => simp [headerInto, Header.asm]
+  | 1 => exact foldl_into into asm h _ r
+  | 2 => exact foldl_into _ _ (functionInto_eq into asm h af ab) _ r
+  | _ + 3 => simp [moduleIntoPiece, Module.asmPiece]
+
+end containers
+
+open Rspirv.Generated.Traversals in
+/-- **C15 (module level, one shared buffer).** `Module::assemble_into` — the translated statement orders of the four container impls
+threading one vector, with the translated body of `Instruction::assemble_into` at the leaves — leaves the buffer's earlier content
+untouched and appends exactly the module's stand-alone assembly (`C15.assemble`, which `C15_assemble` shows to be the header words
+followed by the assembly of each instruction visited by `all_inst_iter`). -/
+theorem C15_module_into (buf : List Nat) (m : Module Inst) :
+    moduleInto asmModule asmHeader globalIter asmFunction asmBlock (instInto asmInstruction) buf m =
+      buf ++ Module.asm asmModule asmHeader globalIter asmFunction asmBlock assembleInst m :=
+  moduleInto_eq _ _ C15_inst_into _ _ _ _ _ buf m
 
 example : instInto Rspirv.Generated.Traversals.asmInstruction [9, 9] ⟨1, some 5, some 6, [.w 0 7]⟩ = [9, 9, 262145, 5, 6, 7] := by
   decide
